@@ -706,6 +706,33 @@ def generate_coords():
     return HEADER_COORDS + "\n".join(parts) + "\nend Verde.Gen\n"
 
 
+HEADER_IO = """/-
+  GENERATED by harness/py2lean.py from the source text of /repo on every check run — do not edit.
+  `_read_surfer_header` and `_check_surfer_integrity` (io.py), statement by statement; Props/C19.lean proves them equal to the model.
+-/
+import VerdeModel.Model.Surfer
+namespace Verde.Gen
+open Verde
+
+"""
+GEN_IO = os.path.join(VERIF, "lean", "VerdeModel", "Gen", "IO.lean")
+SNAP_IO = os.path.join(VERIF, "lean", "VerdeModel", "GenSnapshot", "IO.lean.txt")
+
+
+def generate_io():
+    parts = [
+        translate_do("verde/io.py", "_read_surfer_header", "readSurferHeader", [("input_file", "input_file", "file")], "surferheader"),
+        translate_do("verde/io.py", "_check_surfer_integrity", "checkSurferIntegrity",
+                     [("field.shape", "fshape", "intlist"), ("field.values", "fvals", "ratlist"), ("shape", "shape", "intlist"),
+                      ("data_range", "dataRange", "ratlist")], "unit"),
+    ]
+    return HEADER_IO + "\n".join(parts) + "\nend Verde.Gen\n"
+
+
+def main_io(write=True):
+    return _regen(generate_io, GEN_IO, SNAP_IO, write)
+
+
 HEADER_TREND = """/-
   GENERATED by harness/py2lean.py from the source text of /repo on every check run — do not edit.
   `polynomial_power_combinations` (trend.py); Props/C03.lean proves it equal to the model's explicit monomial order.
@@ -933,7 +960,8 @@ def translate_v2w():
 LEAN_TY = {"rat": "Rat", "int": "Int", "bool": "Bool", "str": "String", "optint": "Option Int", "optrat": "Option Rat",
            "ratlist": "List Rat", "optratlist": "List (Option Rat)", "intpair": "Int × Int", "optintpair": "Option Int × Option Int",
            "opt:intpair": "Option (Int × Int)", "opt:ratlist": "Option (List Rat)", "ratlistpair": "List Rat × List Rat",
-           "ratquad": "Rat × Rat × Rat × Rat", "opt:ratquad": "Option (Rat × Rat × Rat × Rat)"}
+           "ratquad": "Rat × Rat × Rat × Rat", "opt:ratquad": "Option (Rat × Rat × Rat × Rat)", "file": "List SLine", "intlist": "List Int",
+           "unit": "Unit", "surferheader": "String × List Int × (Rat × Rat × Rat × Rat) × List Rat"}
 QUAD_PROJ = [".1", ".2.1", ".2.2.1", ".2.2.2"]
 
 
@@ -1059,7 +1087,68 @@ class DoT:
             return [self.env[n.id][0] + pr for pr in QUAD_PROJ]
         _fail(n, "not a 4-sequence")
 
+    def tokens_comp(self, n):
+        """[int(i.strip()) for i in <line>.split()] / float(...), as a list or inside tuple(...)."""
+        if isinstance(n, ast.Call) and getattr(n.func, "id", None) in ("tuple", "list") and len(n.args) == 1:
+            n = n.args[0]
+        if not isinstance(n, (ast.ListComp, ast.GeneratorExp)) or len(n.generators) != 1 or n.generators[0].ifs:
+            return None
+        g = n.generators[0]
+        e = n.elt
+        if not (isinstance(g.target, ast.Name) and isinstance(e, ast.Call) and getattr(e.func, "id", None) in ("int", "float") and len(e.args) == 1):
+            return None
+        a = e.args[0]
+        if not (isinstance(a, ast.Call) and isinstance(a.func, ast.Attribute) and a.func.attr == "strip" and not a.args
+                and isinstance(a.func.value, ast.Name) and a.func.value.id == g.target.id):
+            return None
+        p, t, ty = self.ex(g.iter)
+        if ty != "toklist":
+            return None
+        r = self.fresh()
+        if e.func.id == "int":
+            return p + [f"let {r} ← intsE {t}"], r, "intlist"
+        return p + [f"let {r} ← floatsE {t}"], r, "ratlist"
+
     def ex(self, n):
+        tc = self.tokens_comp(n)
+        if tc is not None:
+            return tc
+        if isinstance(n, ast.Attribute) and isinstance(n.value, ast.Name) and f"{n.value.id}.{n.attr}" in self.env:
+            return [], self.env[f"{n.value.id}.{n.attr}"][0], self.env[f"{n.value.id}.{n.attr}"][1]
+        if isinstance(n, ast.Call) and isinstance(n.func, ast.Attribute) and not n.args and not n.keywords:
+            f = n.func
+            if f.attr == "readline" and isinstance(f.value, ast.Name) and self.env.get(f.value.id, ("", ""))[1] == "file":
+                t = self.fresh()
+                fv = self.env[f.value.id][0]
+                return [f"let ({t}, {fv}) := readlineS {fv}"], t, "sline"
+            if f.attr in ("min", "max") and isinstance(f.value, ast.Name) and f"{f.value.id}.values" in self.env:
+                t = self.fresh()
+                return [f"let {t} ← {f.attr}E {self.env[f.value.id + '.values'][0]}"], t, "rat"
+            if f.attr in ("strip", "split"):
+                p, t, ty = self.ex(f.value)
+                if ty == "sline":
+                    return p, (f"{t}.stripped" if f.attr == "strip" else f"{t}.toks"), ("str" if f.attr == "strip" else "toklist")
+        if isinstance(n, ast.Call) and isinstance(n.func, ast.Attribute) and getattr(n.func.value, "id", None) == "np" and n.func.attr == "allclose" \
+                and len(n.args) == 2 and not n.keywords and isinstance(n.args[0], ast.Name) and self.env.get(n.args[0].id, ("", ""))[1] == "ratpair2":
+            a0 = self.env[n.args[0].id][0]
+            p, t, ty = self.ex(n.args[1])
+            if ty == "ratlist":
+                r = self.fresh()
+                return p + [f"let {r} ← allclose2E {a0}.1 {a0}.2 {t}"], r, "bool"
+        if isinstance(n, ast.List) and len(n.elts) == 2 and all(isinstance(e, ast.Call) for e in n.elts):
+            pre, parts = [], []
+            for e in n.elts:
+                p, t, ty = self.ex(e)
+                if ty != "rat":
+                    _fail(n, "list of two calls")
+                pre += p
+                parts.append(t)
+            return pre, "(" + ", ".join(parts) + ")", "ratpair2"
+        if isinstance(n, ast.Tuple) and len(n.elts) == 4 and all(isinstance(e, ast.Name) and self.env.get(e.id, ("", ""))[1] == "rat" for e in n.elts):
+            return [], "(" + ", ".join(self.env[e.id][0] for e in n.elts) + ")", "ratquad"
+        if isinstance(n, ast.Tuple) and len(n.elts) == 4 and all(isinstance(e, ast.Name) for e in n.elts) \
+                and [self.env.get(e.id, ("", ""))[1] for e in n.elts] == ["str", "intlist", "ratquad", "ratlist"]:
+            return [], "(" + ", ".join(self.env[e.id][0] for e in n.elts) + ")", "surferheader"
         c = _const_int(n)
         if c is not None and not isinstance(n, ast.Constant):
             return [], (f"({c})" if c < 0 else str(c)), "num"
@@ -1226,6 +1315,15 @@ class DoT:
             p, t, ty = self.ex(n)
             if ty == "bool":
                 return p, f"{t} = true"
+        if isinstance(n, ast.UnaryOp) and isinstance(n.op, ast.Not):
+            p, t, ty = self.ex(n.operand)
+            if ty == "bool":
+                return p, f"{t} = false"
+        if isinstance(n, ast.Compare) and len(n.ops) == 1 and isinstance(n.ops[0], (ast.Eq, ast.NotEq)):
+            p1, a, ta = self.ex(n.left)
+            p2, b, tb = self.ex(n.comparators[0])
+            if ta == tb == "intlist":
+                return p1 + p2, f"{a} {'=' if isinstance(n.ops[0], ast.Eq) else '≠'} {b}"
         if isinstance(n, ast.Compare) and len(n.ops) == 1 and type(n.ops[0]) in (ast.Lt, ast.Gt, ast.LtE, ast.GtE):
             p1, a, ta = self.ex(n.left)
             p2, b, tb = self.ex(n.comparators[0])
@@ -1263,9 +1361,9 @@ class DoT:
             if isinstance(st, ast.Raise):
                 exc = st.exc
                 name = exc.func.id if isinstance(exc, ast.Call) and isinstance(exc.func, ast.Name) else None
-                if name != "ValueError":
+                if name not in ("ValueError", "IOError", "OSError"):
                     _fail(st, "unsupported exception type")
-                lines.append("throw Err.valueError")
+                lines.append("throw Err.valueError" if name == "ValueError" else "throw Err.ioError")
                 continue
             if isinstance(st, ast.Expr) and isinstance(st.value, ast.Call) and isinstance(st.value.func, ast.Name) \
                     and st.value.func.id in self.KNOWN_CHECKS and len(st.value.args) == 1 and isinstance(st.value.args[0], ast.Name):
@@ -1331,6 +1429,11 @@ class DoT:
             if isinstance(st, ast.Assign) and len(st.targets) == 1:
                 t, v = st.targets[0], st.value
                 p, tx, ty = self.ex(v)
+                if isinstance(t, ast.Tuple) and ty == "ratlist" and len(t.elts) == 2 and all(isinstance(e, ast.Name) for e in t.elts):
+                    lines += p + [f"let ({t.elts[0].id}, {t.elts[1].id}) ← unpack2 {tx}"]
+                    for e in t.elts:
+                        self.env[e.id] = (e.id, "rat")
+                    continue
                 if isinstance(t, ast.Tuple) and ty.startswith("call:"):
                     rett = ty[5:].split(",")
                     names = [e.id for e in t.elts]
@@ -1455,6 +1558,9 @@ def translate_do(path, name, lean_name, params, rettype, stop_at=None):
             raise Untranslatable(f"{name}: no assignment to {stop_at}")
         body = body[:cut[0] + 1] + [ast.Return(value=ast.Name(id=stop_at, ctx=ast.Load()))]
     lines = d.block(body)
+    if d.ret is None and rettype == "unit":
+        lines.append("return ()")
+        d.ret = "unit"
     if d.ret != rettype:
         raise Untranslatable(f"{name}: returns {d.ret}, expected {rettype}")
     seen, args = set(), []
